@@ -1292,3 +1292,94 @@ def gen_agg(report):
     out += "def untranslated : List String := [%s]\n\nend VerifModel.Gen.Agg\n" % ", ".join('"%s"' % n for n in untranslated)
     report["agg"] = {"functions": len(rows) + 1, "untranslated": untranslated}
     return T.write_if_changed(os.path.join(T.GEN, "Agg.lean"), out)
+
+
+# ----------------------------------------------------------------------------------------
+# The -d / -tod time filter of data.Data.__init__ (C03, AUDIT4 row C03)
+#
+# `self.times = np.array([t for t in self.times if <expr(t)> in <list>])` in the `if dates is not None:` and
+# `if tods is not None:` blocks.  <expr> is translated operator by operator into the primitives of
+# lean/VerifModel/Model/DatePrim.lean (Python float `//`, `%`, `*`, `/` by an integer literal, `int()` = truncation
+# toward zero); membership in a list of numbers is `memX` (IEEE equality), as everywhere in the model.
+# ----------------------------------------------------------------------------------------
+DATEFILTER_HEADER = """-- GENERATED by harness/translate.py from verif/data.py (Data.__init__, the -d / -tod filter) — do not edit; regenerated on every check.
+import VerifModel.Base.XR
+import VerifModel.Model.DatePrim
+set_option linter.unusedVariables false
+open VerifModel
+namespace VerifModel.Gen.DateFilter
+
+"""
+
+
+def _datefilter_expr(node, var):
+    ops = {ast.FloorDiv: "floordiv", ast.Mod: "pymod", ast.Mult: "mul", ast.Div: "div"}
+    if isinstance(node, ast.Name) and node.id == var:
+        return "t"
+    if isinstance(node, ast.BinOp) and type(node.op) in ops:
+        c = node.right.value if isinstance(node.right, ast.Constant) else None
+        if not isinstance(c, int) or isinstance(c, bool) or c <= 0:
+            raise Untranslatable("right operand of %s is not a positive integer literal" % type(node.op).__name__)
+        return "(DatePrim.%s %s %d)" % (ops[type(node.op)], _datefilter_expr(node.left, var), c)
+    if isinstance(node, ast.Call) and px.dotted(node.func) == "int" and len(node.args) == 1 and not node.keywords:
+        return "(DatePrim.trunc %s)" % _datefilter_expr(node.args[0], var)
+    raise Untranslatable("time expression %s" % ast.dump(node)[:80])
+
+
+def _datefilter_block(body, param):
+    """the translated key expression of the filter in `if <param> is not None:`"""
+    blocks = [s for s in body if isinstance(s, ast.If) and _is_none_test(s.test, param, True)]
+    if len(blocks) != 1 or blocks[0].orelse:
+        raise Untranslatable("no single `if %s is not None:` block" % param)
+    stmts = _strip_doc(blocks[0].body)
+    listname = param
+    for s in stmts[:-1]:
+        # dates_times = [verif.util.date_to_unixtime(t) for t in dates]: the list the model receives already converted
+        v = s.value if isinstance(s, ast.Assign) and len(s.targets) == 1 and isinstance(s.targets[0], ast.Name) else None
+        ok = isinstance(v, ast.ListComp) and len(v.generators) == 1 and not v.generators[0].ifs \
+            and isinstance(v.generators[0].iter, ast.Name) and v.generators[0].iter.id == param \
+            and isinstance(v.elt, ast.Call) and px.dotted(v.elt.func) == "verif.util.date_to_unixtime" \
+            and len(v.elt.args) == 1 and isinstance(v.elt.args[0], ast.Name) and v.elt.args[0].id == v.generators[0].target.id
+        if not ok or listname != param:
+            raise Untranslatable("statement before the filter in the %s block" % param)
+        listname = s.targets[0].id
+    last = stmts[-1] if stmts else None
+    if not (isinstance(last, ast.Assign) and px.dotted(last.targets[0]) == "self.times"):
+        raise Untranslatable("%s block does not end in an assignment of self.times" % param)
+    v = last.value
+    if isinstance(v, ast.Call) and px.dotted(v.func) in ("np.array", "numpy.array") and len(v.args) == 1 and not v.keywords:
+        v = v.args[0]
+    if not (isinstance(v, ast.ListComp) and len(v.generators) == 1):
+        raise Untranslatable("self.times is not filtered by a list comprehension")
+    g = v.generators[0]
+    if not (isinstance(g.target, ast.Name) and px.dotted(g.iter) == "self.times" and len(g.ifs) == 1
+            and isinstance(v.elt, ast.Name) and v.elt.id == g.target.id):
+        raise Untranslatable("comprehension is not `[t for t in self.times if …]`")
+    c = g.ifs[0]
+    if not (isinstance(c, ast.Compare) and len(c.ops) == 1 and isinstance(c.ops[0], ast.In)
+            and isinstance(c.comparators[0], ast.Name) and c.comparators[0].id == listname):
+        raise Untranslatable("filter is not `<expr> in %s`" % listname)
+    return _datefilter_expr(c.left, g.target.id)
+
+
+def gen_datefilter(report):
+    T = _T()
+    out = DATEFILTER_HEADER
+    untranslated = []
+    pieces = [("dateKeep", "dates", "dates_times", "-d: a time is kept iff this holds (dates_times = the requested dates as unix day starts)"),
+              ("todKeep", "tods", "tods", "-tod: a time is kept iff this holds (tods = the requested hours of day)")]
+    for name, param, lst, doc in pieces:
+        try:
+            cls = px.find_class(T.parse("verif/data.py"), "Data")
+            init = px.find_func(cls.body, "__init__") if cls is not None else None
+            if init is None:
+                raise Untranslatable("Data.__init__ not found")
+            key = _datefilter_block(_strip_doc(init.body), param)
+            out += "/-- %s -/\ndef %s (t : XR) (%s : List XR) : Bool :=\n  memX %s %s\n\n" % (doc, name, lst, key, lst)
+        except (Untranslatable, AttributeError, IndexError) as e:
+            untranslated.append(name)
+            report["untranslated"].append("datefilter.%s: %s" % (name, e))
+            out += "-- untranslated: %s\ndef %s (t : XR) (%s : List XR) : Bool :=\n  false\n\n" % (e, name, lst)
+    out += "def untranslated : List String := [%s]\n\nend VerifModel.Gen.DateFilter\n" % ", ".join('"%s"' % n for n in untranslated)
+    report["datefilter"] = {"functions": len(pieces), "untranslated": untranslated}
+    return T.write_if_changed(os.path.join(T.GEN, "DateFilter.lean"), out)
